@@ -190,6 +190,13 @@ func genC17(e *emitter, tier string) {
 		genC17Schemas(e, tier)
 	}
 	genC17Random(e, tier, pes)
+	// reflected Go values: compare is 0 exactly when equals, compare is antisymmetric, and
+	// both agree with the order of the generic views
+	nr := 600
+	if tier == "thorough" {
+		nr = 20000
+	}
+	emitReflectPairs(e, nr/shardCount)
 }
 
 func genC17Fixed(e *emitter, pes []fieldpath.PathElement) {
